@@ -422,6 +422,12 @@ type spyKV struct {
 	failSet      int // >0: the failSet-th Set from now fails once with errKVTransient (no effect)
 	setFaultHits int
 
+	// holdKey: the lookup of holdKey by a compaction goroutine waits until the foreground Set of holdKey
+	// was made (forces the usual order of a receive's index row and the compaction that the receive launched)
+	holdKey string
+	holdCh  chan struct{}
+	holdSet bool
+
 	gateKey     string        // Set(gateKey) waits until a compaction looked gateKey up
 	gateCh      chan struct{} // closed when that lookup was seen
 	gateSeen    bool
@@ -490,6 +496,20 @@ func (k *spyKV) Get(key string) (string, error) {
 	}
 	k.packers[goid] = true
 	k.packerGets++
+	var hold chan struct{}
+	if key == k.holdKey && k.holdKey != "" && !k.holdSet {
+		hold = k.holdCh
+	}
+	if hold != nil {
+		k.mu.Unlock()
+		tm := time.NewTimer(gateLimit)
+		select {
+		case <-hold:
+		case <-tm.C:
+		}
+		tm.Stop()
+		k.mu.Lock()
+	}
 	inject := false
 	if k.failPackerGet > 0 {
 		k.failPackerGet--
@@ -562,7 +582,21 @@ func (k *spyKV) Set(key, value string) error {
 		}
 		tm.Stop()
 	}
-	return k.KeyValue.Set(key, value)
+	err := k.KeyValue.Set(key, value)
+	k.mu.Lock()
+	if key == k.holdKey && k.holdKey != "" && !k.holdSet {
+		k.holdSet = true
+		close(k.holdCh)
+	}
+	k.mu.Unlock()
+	return err
+}
+
+// armHold makes a compaction's lookup of key wait (bounded) for the foreground Set of key.
+func (k *spyKV) armHold(key string) {
+	k.mu.Lock()
+	k.holdKey, k.holdCh, k.holdSet = key, make(chan struct{}), false
+	k.mu.Unlock()
 }
 
 // armPackerGetFault makes the j-th index lookup of compaction goroutines (counted from now) fail once.
